@@ -235,7 +235,9 @@ where
                                 for l in &meta.labels {
                                     *acc.classes.entry(l).or_insert(0) += 1;
                                 }
-                                if acc.samples.len() < 1 && lane < 4 && meta.nontrivial {
+                                // a few samples spread over the index range (not just the first indices)
+                                let spread = (i.wrapping_mul(0x9E37_79B9_7F4A_7C15) >> 33) % (n / 6 + 1) == 0;
+                                if acc.samples.len() < 2 && meta.nontrivial && (spread || (lane == 0 && acc.samples.is_empty())) {
                                     acc.samples.push(clip(&show(i), 0));
                                 }
                             }
